@@ -112,3 +112,72 @@ PATHS = {
         ("t_q_look_at", "q.look_at 2 3 5 7 11 13"),
     ],
 }
+
+
+# ---- in-place and index-taking matrix operations (obligations in lean/Cgm/Trace/<pid>Idx.lean) ----
+# `&mut` operations and `Index`-based accessors take their indices as `#i` arguments: one kernel per index tuple.
+# The scalar arguments are symbolic, so each kernel covers every matrix for that tuple.  Out-of-range tuples must
+# trace to a panic kernel (`_oob`); for swap_elements these include tuples whose flat offset would alias storage.
+_IDX_SEQ = [2, 3, 5, 7, 11, 13, 17, 19, 23, 29, 31, 37, 41, 43, 47, 53, 59, 61, 67, 71]
+
+
+def _idx_m(n, extra=0):
+    return " ".join(str(b) for b in _IDX_SEQ[:n * n + extra])
+
+
+def _idx_se_tuples(n):
+    """swap_elements index tuples ((ac, ar), (bc, br)): every in-range tuple (16 / 81 / 256: same element, same column,
+    same row, diagonal, general)"""
+    return [(a, b, c, d) for a in range(n) for b in range(n) for c in range(n) for d in range(n)]
+
+
+def _idx_se_oob(n):
+    """out-of-range swap_elements tuples: (0, n) would alias element (1, 0) in the flat storage, (n, 0) is past a
+    column index, equal out-of-range pairs, and a far index"""
+    return [(0, n, n - 1, n - 1), (n - 1, n - 1, 0, n), (n, 0, 0, 0), (0, 0, n, 0), (0, n, 0, n), (n, n, n, n),
+            (1, 1, 1, n + 3)]
+
+
+def _idx_c02():
+    ks = []
+    for n in (2, 3, 4):
+        m, M = f"m{n}", _idx_m(n)
+        for a in range(n):
+            for b in range(n):
+                ks.append((f"t_{m}_swap_rows_{a}_{b}", f"{m}.swap_rows {M} #{a} #{b}"))
+        for (a, b) in [(0, n), (n, 0), (n, n)]:
+            ks.append((f"t_{m}_swap_rows_{a}_{b}_oob", f"{m}.swap_rows {M} #{a} #{b}"))
+        for a in range(n):
+            for b in range(n):
+                ks.append((f"t_{m}_swap_columns_{a}_{b}", f"{m}.swap_columns {M} #{a} #{b}"))
+        for (a, b) in [(0, n), (n, 0), (n, n)]:
+            ks.append((f"t_{m}_swap_columns_{a}_{b}_oob", f"{m}.swap_columns {M} #{a} #{b}"))
+        for (a, b, c, d) in _idx_se_tuples(n):
+            ks.append((f"t_{m}_swap_elements_{a}{b}_{c}{d}", f"{m}.swap_elements {M} #{a} #{b} #{c} #{d}"))
+        for (a, b, c, d) in _idx_se_oob(n):
+            ks.append((f"t_{m}_swap_elements_{a}{b}_{c}{d}_oob", f"{m}.swap_elements {M} #{a} #{b} #{c} #{d}"))
+        MV = _idx_m(n, n).split()
+        for c in list(range(n)) + [n]:
+            ks.append((f"t_{m}_replace_col_{c}" + ("_oob" if c == n else ""),
+                       f"{m}.replace_col {' '.join(MV[:n * n])} #{c} {' '.join(MV[n * n:])}"))
+        ks.append((f"t_{m}_transpose_self", f"{m}.transpose_self {M}"))
+    return ks
+
+
+def _idx_c01():
+    ks = []
+    for n in (2, 3, 4):
+        m, M = f"m{n}", _idx_m(n)
+        for op in ("row", "col"):
+            for r in list(range(n)) + [n, n + 5]:
+                ks.append((f"t_{m}_{op}_{r}" + ("_oob" if r >= n else ""), f"{m}.{op} {M} #{r}"))
+    return ks
+
+
+# `Transform::one()` of the five transform types (Matrix3/Matrix4: `One::one()`, which is what their `Transform::one` returns)
+_IDX_C08 = [("t_dq_one", "dq.one"), ("t_db3_one", "db3.one"), ("t_db2_one", "db2.one"),
+            ("t_m3_one", "m3.one"), ("t_m4_one", "m4.one")]
+
+IDX = {"C02": _idx_c02(), "C01": _idx_c01(), "C08": _IDX_C08}
+for _pid, _ks in IDX.items():
+    PATHS[_pid] = list(PATHS.get(_pid, [])) + _ks
